@@ -217,6 +217,9 @@ def run_job(job, tier, seed):
         first = job[1]
         maxlen = 3 if tier == "quick" else 4
         stack = [first]
+        if first == SIZECHARS[0]:      # once: the empty size line, and sizes written with more leading zeros than any size needs digits
+            for s in ("", "0" * 16 + "1", "0" * 17 + "a", "0" * 20, "0" * 40 + "2"):
+                do(["size", s], dict(size_line=s))
         while stack:
             s = stack.pop()
             do(["size", s], dict(size_line=s))
